@@ -134,6 +134,15 @@ func (vc *VC) loopEnv(fr *frame, b *ssa.BasicBlock, st *State, phiOverride map[*
 	if fc != nil {
 		env.cf, env.pkgPath = vc.fileOf(fc), vc.pkgOf(fc)
 	}
+	// delivery protocol state of a function that drives an opaque delegate itself: "delivered" (the elements handed to
+	// the delegate so far) and "stopped" (the delegate has returned false) can be named in its loop invariants
+	if fr.top && vc.contract != nil && vc.contract.Iterates != nil {
+		if decl, ok := vc.declaredIterSet(fr); ok {
+			d, stopped := vc.deliveryState(st)
+			env.vars["delivered"] = TV{d, setOf(decl.Elem)}
+			env.vars["stopped"] = TV{stopped, FromGo(types.Typ[types.Bool])}
+		}
+	}
 	// iterator of a map range whose Next is in this header
 	for _, in := range b.Instrs {
 		if nx, ok := in.(*ssa.Next); ok {
